@@ -1,6 +1,7 @@
 """C11  Tsukamoto values invert the monotonic membership functions."""
 from __future__ import annotations
 
+import numpy as np
 import z3
 
 from spec import terms as spec
@@ -39,7 +40,9 @@ def _replay(name, law):
             "mono_inc": "bad = y <= y2 and not (z <= z2 + tol * max(1.0, abs(z)))",
             "mono_dec": "bad = y <= y2 and not (z >= z2 - tol * max(1.0, abs(z)))",
             "arrays": "ya = np.array([y, y2]); r = t.tsukamoto(ya); y0d = np.array(y); t.tsukamoto(y0d);"
-                      " bad = not same(r, [z, z2], 0.0) or not same(ya, [y, y2]) or not same(y0d, y)",
+                      " bad = not same(r, [z, z2], 0.0) or not same(ya, [y, y2]) or not same(y0d, y)\n"
+                      "for A in (np.array([y]), np.array([[y]]), np.array([[y], [y2]]), np.array([[y, y2]])):\n"
+                      "    rs = t.tsukamoto(A); bad = bad or np.shape(rs) != A.shape or not same(rs, np.vectorize(lambda q: float(t.tsukamoto(q)))(A), 0.0)",
         }[law])
         lines.append(f"verdict(bad, '{name}.{law}: tsukamoto(%r) = %r, membership back = %r; tsukamoto(%r) = %r' % (y, z, float(t.membership(z)), y2, z2))")
         return "\n".join(lines)
@@ -229,13 +232,21 @@ def ob_arrays(name, tier):
             A = sym_array(ys)
             r = t.tsukamoto(A)
             r2 = t.tsukamoto(sym_array([[ys[0], ys[1]], [ys[1], ys[0]]])) if tier != "quick" else None
-            return r, [t.tsukamoto(y) for y in ys], A, r2
+            # arrays with one element or axes of length one keep their shape
+            shapes = ([ys[0]], [[ys[0]]], [[ys[0]], [ys[1]]], [[ys[0], ys[1]]])
+            sing = [(t.tsukamoto(sym_array(a)), np.shape(np.array(a, dtype=object))) for a in shapes]
+            return r, [t.tsukamoto(y) for y in ys], A, r2, sing
 
         for p in ob.paths(pre, body):
             if p.exc is not None:
                 ob.unexpected(pre, p, f"{name}/arrays", ins, _replay(name, "arrays"))
                 continue
-            r, e, A, r2 = p.result
+            r, e, A, r2, sing = p.result
+            wrong = [(kind_of(a), shp) for a, shp in sing if kind_of(a) != ("array", shp)]
+            if wrong:
+                ob.prove(pre, p, False, f"{name}/arrays/singleton-shape {wrong[0]}", ins, _replay(name, "arrays"))
+                continue
+            ob.prove(pre, p, z3.And([all_same(a, e[:int(np.prod(shp))]) for a, shp in sing]), f"{name}/arrays/singleton-axes", ins, _replay(name, "arrays"))
             if kind_of(r) != ("array", (n,)):
                 ob.prove(pre, p, False, f"{name}/arrays/shape {kind_of(r)}", ins, _replay(name, "arrays"))
                 continue
